@@ -1287,8 +1287,14 @@ func (pc *PeerConnection) SetRemoteDescription(desc SessionDescription) error {
 					transceiver.setDirection(RTPTransceiverDirectionRecvonly)
 				}
 			case direction == RTPTransceiverDirectionSendonly:
-				if transceiver.Direction() == RTPTransceiverDirectionInactive {
+				// The remote does not want to receive: stop offering to send
+				// (RFC 3264 section 6.1: a sendonly offer is answered recvonly or inactive).
+				switch transceiver.Direction() {
+				case RTPTransceiverDirectionInactive, RTPTransceiverDirectionSendrecv:
 					transceiver.setDirection(RTPTransceiverDirectionRecvonly)
+				case RTPTransceiverDirectionSendonly:
+					transceiver.setDirection(RTPTransceiverDirectionInactive)
+				default:
 				}
 			}
 
